@@ -1,0 +1,11 @@
+//go:build verif
+
+package memstore
+
+// VerifRawSize returns the raw (unscaled) size estimate of a memstore (verification hook, build tag verif only).
+func VerifRawSize(m MemStoreI) (uint64, bool) {
+	if ms, ok := m.(*MemStore); ok {
+		return ms.estimatedSize, true
+	}
+	return 0, false
+}
